@@ -224,15 +224,21 @@ func (r *run) body(fs *fnState, args []reflect.Value) []reflect.Value {
 		failing = fs.errIdx[((beh.ESlot%m)+m)%m]
 	}
 
-	p := producer{f: f, x: x, n: beh.length()}
+	p := newProducer(f, x, beh.length())
 	outs := make([]reflect.Value, len(fs.out))
 	for i, t := range fs.out {
 		v := reflect.New(t).Elem()
 		if i == failing {
 			p.slot++
-			ue := &UserErr{Fn: f, X: x}
-			r.userErrs[[2]int{f, x}] = ue
-			v.Set(reflect.ValueOf(ue))
+			if beh.TNil {
+				// the typed nil pointer: no identity of its own, so the run remembers whose it is
+				r.lastNil = [2]int{f, x}
+				v.Set(reflect.ValueOf((*NilErr)(nil)))
+			} else {
+				ue := &UserErr{Fn: f, X: x}
+				r.userErrs[[2]int{f, x}] = ue
+				v.Set(reflect.ValueOf(ue))
+			}
 		} else {
 			p.fill(v, true)
 		}
